@@ -122,7 +122,7 @@ def run(ctx):
     n = ctx.scale(110, 300)
     for kind in graphs.COLLECTIONS:
         for i in range(n):
-            knobs = {"p_opt": rng.choice([0.3, 0.5, 0.8, 1.0]), "p_share": rng.choice([0.0, 0.3, 0.6, 0.9]), "size": rng.choice([1, 2, 3, 5]), "p_id_reuse": rng.choice([0.0, 0.0, 0.3])}
+            knobs = {"p_opt": rng.choice([0.3, 0.5, 0.8, 1.0]), "p_share": rng.choice([0.0, 0.3, 0.6, 0.9]), "size": rng.choice([1, 2, 3, 5]), "p_id_reuse": rng.choice([0.0, 0.0, 0.3]), "p_twin": rng.choice([0.0, 0.0, 0.4])}
             if ctx.thorough and i % 60 == 0:
                 knobs["size"] = 12
             judge(ctx, kind, rng.getrandbits(40), knobs, rng.choice(["none", "none", "path"]))
